@@ -406,7 +406,7 @@ class C10(ValCheck):
         # buffers legitimately recycle rows a strided / VALID consumer never reads, so this is not a sound overlap oracle)
         out["counters"]["unread_rows_recycled"] = len(sim["dead_stores"])
         for v in sim["viol"]:
-            if v.get("oracle") in ("uninit_read", "async_uninit_read", "npu_output_not_fully_written") or (v.get("prop") == "C12" and v.get("found_tag") == -1):
+            if v.get("oracle") in ("uninit_read", "async_uninit_read", "unwritten_output_consumed"):
                 vv = dict(v)
                 vv.update(prop="C10", oracle="gap_" + v["oracle"], layers=layers, sig=dict(oracle="gap_" + v["oracle"], kind=v.get("kind")))
                 out["viol"].append(vv)
